@@ -281,7 +281,10 @@ class SInt:
         return mk_int(z3.If(self.e < 0, -self.e, self.e))
 
     def __mul__(self, o):
-        if isinstance(o, (float, SFloat)):
+        import decimal
+        if isinstance(o, (float, decimal.Decimal)):
+            return SFloat(self, o)
+        if isinstance(o, SFloat):
             return SFloat()
         if not is_intlike(o):
             return NotImplemented
@@ -290,7 +293,10 @@ class SInt:
         return mk_int(a * b)
 
     def __rmul__(self, o):
-        if isinstance(o, (float, SFloat)):
+        import decimal
+        if isinstance(o, (float, decimal.Decimal)):
+            return SFloat(self, o)
+        if isinstance(o, SFloat):
             return SFloat()
         if not is_intlike(o):
             return NotImplemented
@@ -406,13 +412,15 @@ class SInt:
 
 
 class SFloat:
-    """result of mixing a symbolic int with a float: an opaque float (only formatting is modelled)."""
+    """symbolic int times a concrete float/Decimal factor (x * factor); anything else is opaque.
+    Only formatting and structural equality are modelled."""
+
+    def __init__(self, x=None, factor=None):
+        self.x = x
+        self.factor = factor
 
     def __format__(self, spec):
-        try:
-            format(0.0, spec)
-        except ValueError:
-            raise
+        format(0.0, spec)
         return OPAQUE
 
     def __str__(self):
@@ -421,7 +429,8 @@ class SFloat:
     __repr__ = __str__
 
     def _arith(self, o):
-        if isinstance(o, (int, float, SInt, SBool, SFloat)):
+        import decimal
+        if isinstance(o, (int, float, SInt, SBool, SFloat, decimal.Decimal)):
             return SFloat()
         return NotImplemented
     __add__ = __radd__ = __sub__ = __rsub__ = __mul__ = __rmul__ = __truediv__ = __rtruediv__ = _arith
@@ -441,6 +450,15 @@ class SFloat:
 
     def __bool__(self):
         raise Unsupported("truth value of an opaque float")
+
+    def same_as(self, o):
+        if not isinstance(o, SFloat):
+            return False
+        if self.x is None or o.x is None:
+            raise Unsupported("equality of opaque floats")
+        if type(self.factor) is not type(o.factor) or self.factor != o.factor:
+            return False
+        return self.x == o.x
 
 
 class BitLength:
